@@ -1162,6 +1162,12 @@ def c13(res, wd):
         if "Model checking completed" not in out:
             raise core.ToolError("MC_SyncTest/%s did not complete: %s" % (name, out[-1500:]))
         res.add_model("MC_SyncTest/" + name, gen, dist, {"constants": c, "exhaustive": True})
+    # "valid configurations run, invalid ones must be rejected": the builder rules that concern sync tests
+    # (check distance against the prediction window, player count, delay) over a window x check-distance grid
+    _builder_component(res, wd, "C13",
+                       {"Handles": "{0}", "PlayerCounts": "{1, 2}", "Windows": "{0, 1, 2, 3, 8}", "Delays": "{0, 2}",
+                        "FpsValues": "{1}", "Intervals": "{0}", "CheckDistances": "{0, 1, 2, 3, 7, 8, 9}",
+                        "BehindValues": "{60}", "CatchupValues": "{3}", "MaxCalls": 3}, tag="builder_st")
     rng = random.Random(res.seed * 1000 + 130)
     n, frames = sizes(res.tier, (24, 120), (160, 500))
     ps = [_st_plan(rng, frames, glitch=(i % 2 == 1)) for i in range(n)]
@@ -1210,30 +1216,26 @@ def c13(res, wd):
 # C16: builder validation and run-time misuse
 # ---------------------------------------------------------------------------------------------
 
-def c16(res, wd):
+def _builder_component(res, wd, pid, consts, tag="builder"):
+    """Builder.tla enumerates every call sequence over the given domains; each (history, next call) is replayed on
+    the real SessionBuilder and the documented result compared."""
     import re
     core.build()
-    consts = {"Handles": "{0, 1, 2, 3}", "PlayerCounts": "{0, 1, 2, 3}", "Windows": "{0, 2}", "Delays": "{16}",
-              "FpsValues": "{0, 1}", "Intervals": "{0, 1}", "CheckDistances": "{0, 2}",
-              "BehindValues": "{0, 59, 60}", "CatchupValues": "{0, 3}", "MaxCalls": 3}
-    if res.tier == "thorough":
-        consts.update({"Handles": "{0, 1, 2, 3, 4}", "PlayerCounts": "{0, 1, 2, 3, 4}", "Windows": "{0, 1, 8, 16}",
-                       "Delays": "{0, 2, 16}", "CheckDistances": "{0, 1, 2, 4}", "MaxCalls": 4})
-    cfgp = os.path.join(wd, "builder.cfg")
+    cfgp = os.path.join(wd, tag + ".cfg")
     engines.write_cfg(cfgp, "Spec", {k: str(v) for k, v in consts.items()}, invariants=["Emit"], view="View")
-    rc, out = core.tlc(os.path.join(core.SPEC, "Builder.tla"), cfgp, os.path.join(wd, "md_builder"), workers=1,
+    rc, out = core.tlc(os.path.join(core.SPEC, "Builder.tla"), cfgp, os.path.join(wd, "md_" + tag), workers=1,
                        timeout=2400, xmx="8g")
     gen, dist = core.parse_tlc_stats(out)
     if "Model checking completed" not in out:
         raise core.ToolError("Builder.tla exploration failed: %s" % out[-1500:])
-    cases = os.path.join(wd, "builder_cases.ndjson")
+    cases = os.path.join(wd, tag + "_cases.ndjson")
     n = 0
     with open(cases, "w") as f:
         for m in re.finditer(r'<<"BUILDER", "(.*)">>', out):
             f.write(m.group(1).encode().decode("unicode_escape") + "\n")
             n += 1
-    res.add_model("Builder", gen, dist, {"constants": consts, "configurations": n, "exhaustive": True})
-    outp = os.path.join(wd, "builder_mismatch.ndjson")
+    res.add_model("Builder/" + tag, gen, dist, {"constants": consts, "configurations": n, "exhaustive": True})
+    outp = os.path.join(wd, tag + "_mismatch.ndjson")
     rc, o = core.sh([os.path.join(core.BIN, "builder"), cases, outp], timeout=1800)
     if rc != 0:
         raise core.ToolError("builder replay failed rc=%d: %s" % (rc, o[-1500:]))
@@ -1241,20 +1243,30 @@ def c16(res, wd):
     res.evaluations += summ["calls"]
     res.nontrivial += summ["calls"]
     res.traces += 1
-    res.extra["builder_replay"] = summ
+    res.extra[tag + "_replay"] = summ
     res.add_sample({"builder_case": "history of <=%s calls + every next call, expected result from Builder.tla" % consts["MaxCalls"]})
     if summ["mismatches"] or summ["panics"]:
         with open(outp) as f:
             bad = [json.loads(x) for x in f.readlines()[:3]]
-        rp = os.path.join(core.REPLAYS, "C16")
+        rp = os.path.join(core.REPLAYS, pid)
         os.makedirs(rp, exist_ok=True)
-        rpath = os.path.join(rp, "builder_s%d.ndjson" % res.seed)
+        rpath = os.path.join(rp, "%s_s%d.ndjson" % (tag, res.seed))
         import shutil
         shutil.copy(outp, rpath)
         for b in bad:
-            res.violations.append({"prop": "C16", "code": "builder-result-differs-from-documentation"
+            res.violations.append({"prop": pid, "code": "builder-result-differs-from-documentation"
                                    if b["actual"] != "panic" else "builder-or-session-panicked",
                                    "detail": b, "family": "builder", "cls": "builder", "replay": rpath})
+
+
+def c16(res, wd):
+    consts = {"Handles": "{0, 1, 2, 3}", "PlayerCounts": "{0, 1, 2, 3}", "Windows": "{0, 2}", "Delays": "{16}",
+              "FpsValues": "{0, 1}", "Intervals": "{0, 1}", "CheckDistances": "{0, 2}",
+              "BehindValues": "{0, 59, 60}", "CatchupValues": "{0, 3}", "MaxCalls": 3}
+    if res.tier == "thorough":
+        consts.update({"Handles": "{0, 1, 2, 3, 4}", "PlayerCounts": "{0, 1, 2, 3, 4}", "Windows": "{0, 1, 8, 16}",
+                       "Delays": "{0, 2, 16}", "CheckDistances": "{0, 1, 2, 4}", "MaxCalls": 4})
+    _builder_component(res, wd, "C16", consts)
     # run-time misuse inserted at random points of otherwise valid runs; twin without misuse
     rng = random.Random(res.seed * 1000 + 160)
     nm, frames = sizes(res.tier, (12, 200), (80, 800))
